@@ -34,6 +34,7 @@ import (
 	"strconv"
 	"strings"
 	"sync"
+	"sync/atomic"
 	"syscall"
 	"time"
 
@@ -209,6 +210,16 @@ type job struct {
 // worker owns one child at a time and keeps up to `window` cases in flight in it (the child
 // answers them in order, one at a time).  The first unanswered case is the one being executed:
 // it gets the blame for a crash or a timeout, the others go back to the worker's own queue.
+// timeouts counts the cases reported as timeout; beyond maxTimeouts the run is cut short: every
+// remaining case is answered "skipped:too-many-timeouts" without being executed (a tree on which
+// most syntax errors hang would otherwise keep the supervisor busy for days).
+var (
+	timeouts    int64
+	maxTimeouts int64
+)
+
+func tripped() bool { return atomic.LoadInt64(&timeouts) > maxTimeouts }
+
 type worker struct {
 	lines       <-chan string
 	emit        func(id, res string)
@@ -239,6 +250,18 @@ func (w *worker) alone(j job, slow int) string {
 	case <-time.After(time.Duration(slow) * w.wait):
 		return "timeout"
 	}
+}
+
+// retry runs a case that timed out once more, alone, with a more generous limit.
+func (w *worker) retry(j job) string {
+	res := "timeout"
+	if !tripped() {
+		res = w.alone(j, w.retryFactor)
+	}
+	if res == "timeout" {
+		atomic.AddInt64(&timeouts, 1)
+	}
+	return res
 }
 
 func (w *worker) run() {
@@ -306,6 +329,20 @@ func (w *worker) run() {
 			}
 			continue
 		}
+		if tripped() {
+			for _, j := range append(pending, queue...) {
+				w.emit(j.id, "skipped:too-many-timeouts")
+			}
+			pending, queue = nil, nil
+			if c != nil {
+				c.kill()
+				c = nil
+			}
+			for line := range w.lines {
+				w.emit(mkJob(line).id, "skipped:too-many-timeouts")
+			}
+			return
+		}
 		head := pending[0]
 		select {
 		case ans, ok := <-c.answers:
@@ -321,7 +358,7 @@ func (w *worker) run() {
 					w.emit(head.id, "harness-error:unexpected answer "+strconv.Quote(ans))
 				} else if ans[k+1:] == "timeout" {
 					drop()
-					w.emit(head.id, w.alone(head, w.retryFactor))
+					w.emit(head.id, w.retry(head))
 				} else {
 					pending = pending[1:]
 					w.emit(head.id, ans[k+1:])
@@ -329,7 +366,7 @@ func (w *worker) run() {
 			}
 		case <-time.After(w.wait):
 			drop()
-			w.emit(head.id, w.alone(head, w.retryFactor))
+			w.emit(head.id, w.retry(head))
 		}
 	}
 }
@@ -345,6 +382,7 @@ func mkJob(line string) job {
 func supervisorMain() {
 	procs := envInt("C10_PROCS", runtime.NumCPU())
 	timeoutMs := envInt("HARNESS_TIMEOUT_MS", 10000)
+	maxTimeouts = int64(envInt("C10_MAX_TIMEOUTS", 40))
 
 	lines := make(chan string, 1024)
 	var mu sync.Mutex
